@@ -469,6 +469,336 @@ def desugar(F):
     return done
 
 
+_IT = 'std::iter::Iterator::'
+FUSE_ADAPTORS = {_IT + 'map': 'map', _IT + 'filter': 'filter', _IT + 'filter_map': 'filter_map', _IT + 'inspect': 'inspect'}
+FUSE_CONSUMERS = {_IT + 'for_each': 'for_each', _IT + 'try_for_each': 'try_for_each', _IT + 'any': 'any', _IT + 'all': 'all',
+                  _IT + 'find_map': 'find_map', _IT + 'fold': 'fold'}
+
+
+def _def_call_block(b, op):
+    """index of the block whose call terminator is the single definition of the (projection-free) local behind `op`"""
+    if op['k'] == 'const' or op['p']['proj']:
+        return None
+    l = op['p']['l']
+    hits = [i for i, blk in enumerate(b.blocks) if blk['term']['k'] == 'call' and blk['term'].get('dst') == {'l': l, 'proj': []}]
+    stm = [1 for blk in b.blocks for st in blk['stmts'] if st['dst']['l'] == l]
+    return hits[0] if len(hits) == 1 and not stm else None
+
+
+def fuse_iterators(F):
+    """`src.map(f).filter(p).filter_map(g) . for_each(h) | try_for_each(h) | any(p) | all(p) | find_map(g) | fold(init, h)`
+    with closure literals becomes the `loop { match src.next() { .. } }` it stands for, the closures spliced into the loop
+    body: every dominance / must-pass-through rule then reads the iterator spelling exactly like the `for` spelling."""
+    done = []
+    order = sorted(F.bodies, key=lambda k: (-k.count('::{'), k))
+    for p in order:
+        b = F.bodies.get(p)
+        if b is None:
+            continue
+        bi = -1
+        while bi + 1 < len(b.blocks):
+            bi += 1
+            t = b.blocks[bi]['term']
+            if t['k'] != 'call' or t.get('target') is None or t['dst']['proj'] or not t.get('args') or t.get('exp'):
+                continue
+            cons = FUSE_CONSUMERS.get(_callee(t))
+            if cons is None:
+                continue
+            if len(t['args']) != (3 if cons == 'fold' else 2):
+                continue
+            cclo = _closure_of(F, b, t['args'][-1])
+            if cclo is None:
+                continue
+            # walk back through fusable adaptors
+            stages, dead = [], []
+            src = t['args'][0]
+            ok = True
+            while True:
+                db = _def_call_block(b, src)
+                if db is None:
+                    break
+                at = b.blocks[db]['term']
+                kind = FUSE_ADAPTORS.get(_callee(at))
+                if kind is None or len(at['args']) != 2 or at.get('exp'):
+                    break
+                acl = _closure_of(F, b, at['args'][1])
+                if acl is None or acl.argc != 2:
+                    break
+                stages.insert(0, (kind, at['args'][1], acl))
+                dead.append(db)
+                src = at['args'][0]
+            if src['k'] == 'const' or src['p']['proj']:
+                continue
+            want = {'for_each': 2, 'try_for_each': 2, 'any': 2, 'all': 2, 'find_map': 2, 'fold': 3}[cons]
+            if cclo.argc != want:
+                continue
+            dst, target = t['dst'], t['target']
+            dty = b.locals[dst['l']]['ty']
+            if cons == 'try_for_each' and not re.match(r'^(?:std|core)::result::Result<\(\), ', dty):
+                continue
+            pos = {'line': t.get('line'), 'col': t.get('col'), 'exp': False}
+
+            def newlocal(ty):
+                b.locals.append({'ty': ty, 'name': None, 'user': False})
+                return {'l': len(b.locals) - 1, 'proj': []}
+
+            def newblock(stmts, term):
+                b.blocks.append({'stmts': stmts, 'cleanup': False, 'term': term or dict(pos, k='unreachable')})
+                return len(b.blocks) - 1
+
+            def use(place):
+                return {'k': 'use', 'ops': [{'k': 'move', 'p': place}]}
+            first = stages[0][2] if stages else cclo
+            item_ty = first.locals[3 if (cons == 'fold' and not stages) else 2]['ty']
+            if stages and stages[0][0] in ('filter', 'inspect'):
+                item_ty = re.sub(r'^&', '', item_ty)
+            elif not stages and cons in ():
+                pass
+            nx = newlocal('std::option::Option<%s>' % item_ty)
+            rs = newlocal('&mut ' + b.locals[src['p']['l']]['ty'])
+            H = newblock([dict(pos, dst=rs, rv={'k': 'ref', 'mut': True, 'p': {'l': src['p']['l'], 'proj': []}})],
+                         dict(pos, k='call', func={'k': 'const', 'fn': 'std::iter::Iterator::next', 'dbg': 'fused iterator'}, args=[{'k': 'move', 'p': rs}], dst=nx, target=None, fused=True))
+            dn = newlocal('isize')
+            S = newblock([dict(pos, dst=dn, rv={'k': 'discr', 'p': nx})], None)
+            b.blocks[H]['term']['target'] = S
+            # exhausted
+            if cons == 'try_for_each':
+                unit = newlocal('()')
+                erv = [dict(pos, dst=unit, rv={'k': 'use', 'ops': [{'k': 'const', 'ty': '()', 'dbg': '()'}]}), dict(pos, dst=dst, rv=_agg('Ok', {'k': 'move', 'p': unit}))]
+            elif cons in ('any', 'all'):
+                erv = [dict(pos, dst=dst, rv={'k': 'use', 'ops': [{'k': 'const', 'ty': 'bool', 'v': 1 if cons == 'all' else 0, 'dbg': 'true' if cons == 'all' else 'false'}]})]
+            elif cons == 'find_map':
+                erv = [dict(pos, dst=dst, rv={'k': 'agg', 'ak': 'adt', 'adt': 'std::option::Option', 'variant': 0, 'vname': 'None', 'fields': [], 'ops': []})]
+            elif cons == 'fold':
+                acc = newlocal(dty)
+                erv = [dict(pos, dst=dst, rv=use(acc))]
+            else:
+                erv = [dict(pos, dst=dst, rv={'k': 'use', 'ops': [{'k': 'const', 'ty': '()', 'dbg': '()'}]})]
+            E = newblock(erv, dict(pos, k='goto', target=target))
+            x = newlocal(item_ty)
+            B0 = newblock([dict(pos, dst=x, rv=use({'l': nx['l'], 'proj': [{'dc': 1, 'name': 'Some'}, {'f': 0, 'name': '0', 'ty': item_ty}]}))], None)
+            b.blocks[S]['term'] = dict(pos, k='switch', on={'k': 'move', 'p': dn}, targets=[[0, E]], otherwise=B0, fused=True)
+            cur_block, cur_val, cur_ty = B0, x, item_ty
+            retire = []
+
+            def call_closure(block, clo_op, clo_body, args, ret_ty):
+                """append `tmp = closure(args)` after `block` (which must have no terminator yet); returns (tmp, continuation block)"""
+                tmp = newlocal(ret_ty)
+                cont = newblock([], None)
+                b.blocks[block]['term'] = dict(pos, k='call', func={'k': 'const', 'fn': 'std::ops::FnMut::call_mut', 'dbg': 'fused closure call'},
+                                               args=[clo_op] + args, dst=tmp, target=cont)
+                cal = type('B', (), {})()
+                cal.locals, cal.blocks, cal.path = copy.deepcopy(clo_body.locals), copy.deepcopy(clo_body.blocks), clo_body.path
+                splice(b, block, cal)
+                retire.append(clo_body)
+                return tmp, cont
+            for kind, clo_op, acl in stages:
+                rty = acl.locals[0]['ty']
+                if kind == 'map':
+                    tmp, cur_block = call_closure(cur_block, clo_op, acl, [{'k': 'move', 'p': cur_val}], rty)
+                    cur_val, cur_ty = tmp, rty
+                elif kind in ('filter', 'inspect'):
+                    r = newlocal('&' + cur_ty)
+                    b.blocks[cur_block]['stmts'].append(dict(pos, dst=r, rv={'k': 'ref', 'mut': False, 'p': cur_val}))
+                    tmp, nb_ = call_closure(cur_block, clo_op, acl, [{'k': 'move', 'p': r}], rty)
+                    if kind == 'filter':
+                        nxt = newblock([], None)
+                        b.blocks[nb_]['term'] = dict(pos, k='switch', on={'k': 'move', 'p': tmp}, targets=[[0, H]], otherwise=nxt, fused=True)
+                        cur_block = nxt
+                    else:
+                        cur_block = nb_
+                elif kind == 'filter_map':
+                    tmp, nb_ = call_closure(cur_block, clo_op, acl, [{'k': 'move', 'p': cur_val}], rty)
+                    pl = _option_payload(rty) or '?'
+                    d2 = newlocal('isize')
+                    b.blocks[nb_]['stmts'].append(dict(pos, dst=d2, rv={'k': 'discr', 'p': tmp}))
+                    y = newlocal(pl)
+                    nxt = newblock([dict(pos, dst=y, rv=use({'l': tmp['l'], 'proj': [{'dc': 1, 'name': 'Some'}, {'f': 0, 'name': '0', 'ty': pl}]}))], None)
+                    b.blocks[nb_]['term'] = dict(pos, k='switch', on={'k': 'move', 'p': d2}, targets=[[0, H]], otherwise=nxt, fused=True)
+                    cur_block, cur_val, cur_ty = nxt, y, pl
+            cop = t['args'][-1]
+            crty = cclo.locals[0]['ty']
+            if cons == 'fold':
+                tmp, nb_ = call_closure(cur_block, cop, cclo, [{'k': 'move', 'p': acc}, {'k': 'move', 'p': cur_val}], crty)
+                b.blocks[nb_]['stmts'].append(dict(pos, dst=acc, rv=use(tmp)))
+                b.blocks[nb_]['term'] = dict(pos, k='goto', target=H)
+            else:
+                tmp, nb_ = call_closure(cur_block, cop, cclo, [{'k': 'move', 'p': cur_val}], crty)
+                if cons == 'for_each':
+                    b.blocks[nb_]['term'] = dict(pos, k='goto', target=H)
+                elif cons == 'try_for_each':
+                    d3 = newlocal('isize')
+                    b.blocks[nb_]['stmts'].append(dict(pos, dst=d3, rv={'k': 'discr', 'p': tmp}))
+                    brk = newblock([dict(pos, dst=dst, rv=use(tmp))], dict(pos, k='goto', target=target))
+                    b.blocks[nb_]['term'] = dict(pos, k='switch', on={'k': 'move', 'p': d3}, targets=[[0, H]], otherwise=brk, fused=True)
+                elif cons in ('any', 'all'):
+                    hit = newblock([dict(pos, dst=dst, rv={'k': 'use', 'ops': [{'k': 'const', 'ty': 'bool', 'v': 1 if cons == 'any' else 0, 'dbg': 'true' if cons == 'any' else 'false'}]})],
+                                   dict(pos, k='goto', target=target))
+                    b.blocks[nb_]['term'] = dict(pos, k='switch', on={'k': 'move', 'p': tmp}, targets=[[0, H if cons == 'any' else hit]], otherwise=hit if cons == 'any' else H, fused=True)
+                elif cons == 'find_map':
+                    d3 = newlocal('isize')
+                    b.blocks[nb_]['stmts'].append(dict(pos, dst=d3, rv={'k': 'discr', 'p': tmp}))
+                    hit = newblock([dict(pos, dst=dst, rv=use(tmp))], dict(pos, k='goto', target=target))
+                    b.blocks[nb_]['term'] = dict(pos, k='switch', on={'k': 'move', 'p': d3}, targets=[[0, H]], otherwise=hit, fused=True)
+            # entry: the consumer call becomes `[acc = init;] goto H`; the adaptor calls become plain gotos
+            if cons == 'fold':
+                b.blocks[bi]['stmts'].append(dict(pos, dst=acc, rv={'k': 'use', 'ops': [t['args'][1]]}))
+            b.blocks[bi]['term'] = dict(pos, k='goto', target=H, fused=cons)
+            for db in dead:
+                at = b.blocks[db]['term']
+                b.blocks[db]['term'] = dict(pos, k='goto', target=at['target'], fused='adaptor')
+            for cb_ in retire:
+                _retire_closure(F, cb_, p)
+            b._cfg_cache = None
+            done.append((cons, p))
+    return done
+
+
+def _closure_literal_behind(F, b, op, depth=0):
+    """(closure body, operand to pass as the environment) when `op` is a closure literal of this body or a reference to one"""
+    if op['k'] == 'const' or op['p']['proj'] or depth > 3:
+        return None
+    cb = _closure_of(F, b, op)
+    if cb is not None:
+        return cb
+    l = op['p']['l']
+    defs = [st for blk in b.blocks for st in blk['stmts'] if st['dst']['l'] == l]
+    calls = [1 for blk in b.blocks if blk['term']['k'] == 'call' and blk['term'].get('dst', {}).get('l') == l]
+    if len(defs) == 1 and not calls and not defs[0]['dst']['proj']:
+        rv = defs[0]['rv']
+        if rv['k'] == 'ref' and not rv['p']['proj']:
+            return _closure_literal_behind(F, b, {'k': 'copy', 'p': {'l': rv['p']['l'], 'proj': []}}, depth + 1)
+        if rv['k'] == 'use' and rv['ops'][0]['k'] != 'const' and not rv['ops'][0]['p']['proj']:
+            return _closure_literal_behind(F, b, rv['ops'][0], depth + 1)
+    return None
+
+
+def splice_local_closure_calls(F):
+    """`let check = |a, b| ..; check(x, y)?` : a closure literal called by name in the body that defines it is spliced at its
+    call sites like a private helper (arguments arrive as one tuple: parameter i is field i of it)"""
+    done = []
+    order = sorted(F.bodies, key=lambda k: (-k.count('::{'), k))
+    for p in order:
+        b = F.bodies.get(p)
+        if b is None:
+            continue
+        sites = {}
+        for bi, blk in enumerate(b.blocks):
+            t = blk['term']
+            if t['k'] != 'call' or re.sub(r'\bcopia::', '', t.get('func', {}).get('fn') or '') not in CLOSURE_CALLS or len(t.get('args', [])) != 2 or t.get('exp') or t.get('desugared'):
+                continue
+            cb = _closure_literal_behind(F, b, t['args'][0])
+            if cb is None or cb.path not in F.bodies:
+                continue
+            tup = t['args'][1]
+            n = cb.argc - 1
+            if tup['k'] == 'const':
+                if n != 0:
+                    continue
+                args = []
+            else:
+                if tup['p']['proj']:
+                    continue
+                tty = b.locals[tup['p']['l']]['ty']
+                args = [{'k': 'move', 'p': {'l': tup['p']['l'], 'proj': [{'f': i, 'name': '', 'ty': cb.locals[2 + i]['ty']}]}} for i in range(n)]
+                if n == 0 and tty != '()':
+                    continue
+            sites.setdefault(cb.path, []).append((bi, args))
+        for cpath, ss in sites.items():
+            cb = F.bodies[cpath]
+            if len(ss) > MAX_SITES or len(cb.blocks) > MAX_BLOCKS:
+                continue
+            for bi, args in sorted(ss, key=lambda x: -x[0]):
+                t = b.blocks[bi]['term']
+                b.blocks[bi]['term'] = dict(t, args=[t['args'][0]] + args)
+                cal = type('B', (), {})()
+                cal.locals, cal.blocks, cal.path = copy.deepcopy(cb.locals), copy.deepcopy(cb.blocks), cb.path
+                splice(b, bi, cal)
+            _retire_closure(F, cb, p)
+            b._cfg_cache = None
+            done.append(('closure-call', p))
+    return done
+
+
+def thread_jumps(b, rounds=4):
+    """Exact jump threading with duplication: a block that has just given a local a known constant / enum variant and then
+    runs - through gotos and statement-only blocks - into a `switchInt` on that value (or on its discriminant) goes
+    straight to the target the switch would pick; the statements on the way are copied.  Removes the infeasible paths
+    that splicing creates ("the closure returned Err" -> "the caller's test of the result says Ok")."""
+    changed_any = False
+    for _ in range(rounds):
+        changed = False
+        for bi in range(len(b.blocks)):
+            blk = b.blocks[bi]
+            t = blk['term']
+            if t['k'] not in ('goto', 'drop') or t.get('threaded') or t.get('target') is None:
+                continue
+            known = {}
+
+            def absorb(st):
+                d = st['dst']
+                if d['proj']:
+                    known.pop(d['l'], None)
+                    return
+                rv = st['rv']
+                val = None
+                if rv['k'] == 'agg' and rv.get('ak') == 'adt' and 'variant' in rv:
+                    val = ('variant', rv['variant'])
+                elif rv['k'] == 'use' and rv['ops'][0]['k'] == 'const' and 'v' in rv['ops'][0]:
+                    val = ('const', rv['ops'][0]['v'])
+                elif rv['k'] == 'use' and rv['ops'][0]['k'] != 'const' and not rv['ops'][0]['p']['proj']:
+                    val = known.get(rv['ops'][0]['p']['l'])
+                elif rv['k'] == 'discr' and not rv['p']['proj']:
+                    kv = known.get(rv['p']['l'])
+                    if kv and kv[0] == 'variant':
+                        val = ('const', kv[1])
+                elif rv['k'] == 'un' and rv['op'] == 'Not' and rv['ops'][0]['k'] != 'const' and not rv['ops'][0]['p']['proj']:
+                    kv = known.get(rv['ops'][0]['p']['l'])
+                    if kv and kv[0] == 'const' and kv[1] in (0, 1, True, False):
+                        val = ('const', 0 if kv[1] else 1)
+                if val is None:
+                    known.pop(d['l'], None)
+                else:
+                    known[d['l']] = val
+            for st in blk['stmts']:
+                absorb(st)
+            if not known:
+                continue
+            cur, copied, hops, resolved = t['target'], [], 0, None
+            while hops < 8 and cur is not None and cur != bi:
+                hops += 1
+                cb = b.blocks[cur]
+                for st in cb['stmts']:
+                    absorb(st)
+                    copied.append(st)
+                ct = cb['term']
+                if ct['k'] == 'goto':
+                    cur = ct['target']
+                    continue
+                if ct['k'] == 'switch' and ct['on']['k'] != 'const' and not ct['on']['p']['proj']:
+                    kv = known.get(ct['on']['p']['l'])
+                    if kv and kv[0] == 'const':
+                        v = int(kv[1]) if isinstance(kv[1], bool) else kv[1]
+                        resolved = ct['otherwise']
+                        for tv, tb in ct['targets']:
+                            if tv == v:
+                                resolved = tb
+                break
+            if resolved is None or hops <= 0:
+                continue
+            if b.blocks[t['target']]['term']['k'] == 'switch' and not b.blocks[t['target']]['stmts'] and False:
+                continue
+            b.blocks.append({'stmts': [dict(st) for st in copied], 'cleanup': False,
+                             'term': {'k': 'goto', 'target': resolved, 'line': t.get('line'), 'col': t.get('col'), 'exp': False, 'threaded': True}})
+            blk['term'] = dict(t, target=len(b.blocks) - 1, threaded=True)
+            changed = changed_any = True
+        if not changed:
+            break
+    if changed_any:
+        b._cfg_cache = None
+    return changed_any
+
+
 def select(F):
     """{callee path: [(caller path, bb)]} of the helpers to splice"""
     anc = anchors()
@@ -504,7 +834,7 @@ def select(F):
 
 def apply(F, log=None):
     """inline the selected helpers (innermost first, up to three rounds); returns the list of spliced (callee, caller)"""
-    done = [('%s()' % k, p) for k, p in desugar(F)]
+    done = [('%s()' % k, p) for k, p in splice_local_closure_calls(F) + fuse_iterators(F) + desugar(F)]
     for _ in range(3):
         sel = select(F)
         if not sel:
@@ -537,6 +867,9 @@ def apply(F, log=None):
             F.inlined[c] = F.bodies.pop(c)
         if not progressed:
             break
+    for p_ in sorted({p for _, p in done}):
+        if p_ in F.bodies:
+            thread_jumps(F.bodies[p_])
     if done:
         # flows / CFGs computed while selecting (semantic anchors) describe the bodies before the splice
         import flow as _flow
